@@ -17,6 +17,7 @@ Driver.Evm — line protocol for the concrete reference EVM (Spec.Evm), one repl
 All numbers hex without 0x.
 -/
 import HalmosVerif.Spec.Evm
+import HalmosVerif.Spec.EvmOps
 import HalmosVerif.Spec.Keccak
 open HalmosVerif.Spec HalmosVerif.Spec.Evm
 
@@ -84,7 +85,8 @@ def St.params (s : St) : Params where
   blockhash := fun n => lookupD s.blockhash n
   keccak := Keccak.keccak256
 
-def haltName : Halt → String
+def haltName (h : Halt) : String :=
+  match h.cancun with
   | .success _ => "success" | .revert _ => "revert" | .invalidOpcode => "invalidOpcode"
   | .invalidJump => "invalidJump" | .stackUnderflow => "stackUnderflow" | .stackOverflow => "stackOverflow"
   | .outOfGas => "outOfGas" | .outOfBoundsRead => "outOfBoundsRead" | .writeInStatic => "writeInStatic"
